@@ -2,7 +2,7 @@
    integer-token lines) -> output lines.  The Rust harness implements the same interface
    on top of the real crate. *)
 From Coq Require Import ZArith List.
-From KD Require Import Model.Values Model.Compare Model.Validate Model.Perm Model.Glob Model.Broker Model.BrokerRun Model.Api Model.ApiRun Model.Wire Model.Conc Model.FloatLit Model.Query Model.QueryRun Model.Vss Model.Auth.
+From KD Require Import Model.Values Model.Compare Model.Validate Model.Perm Model.Glob Model.Broker Model.BrokerRun Model.Api Model.ApiRun Model.Wire Model.Conc Model.FloatLit Model.Query Model.QueryRun Model.Vss Model.Auth Model.Viss.
 Open Scope Z_scope.
 
 Definition fam_cmp : Z := 13.
@@ -15,6 +15,7 @@ Definition fam_wire : Z := 15.
 Definition fam_query : Z := 16.
 Definition fam_vss : Z := 17.
 Definition fam_auth : Z := 6.
+Definition fam_viss : Z := 20.
 
 Definition run (fam : Z) (case : list (list Z)) : list (list Z) :=
   if fam =? fam_cmp then map run_cmp_line case
@@ -27,4 +28,5 @@ Definition run (fam : Z) (case : list (list Z)) : list (list Z) :=
   else if fam =? fam_query then run_query_case case
   else if fam =? fam_vss then run_vss_case case
   else if fam =? fam_auth then run_auth_case case
+  else if fam =? fam_viss then run_viss_case case
   else [[-99]].
